@@ -211,7 +211,8 @@ pub trait SuiteOps: Sync {
     /// the stand-alone key-pair API: which = 0 PublicKey::deserialize, 1
     /// PrivateKey::deserialize (+ public_key), 2 KeyPair::from_private_key_slice,
     /// 3 the same with the external-key type, 4 ServerSetup::deserialize with a 200-byte
-    /// key container, 5 build such a setup from a raw scalar; returns the re-serialized bytes
+    /// key container, 5 build such a setup from a raw scalar, 6 KeGroup::random_sk on a given
+    /// tape; returns the re-serialized bytes
     fn key_api(&self, which: u8, bytes: &[u8]) -> R<Vec<u8>>;
 
     fn client_reg_start(&self, rng: &mut SimRng, pw: &[u8]) -> R<(Item, Item)>;
@@ -686,6 +687,19 @@ macro_rules! suite {
                     4 => {
                         let s = ServerSetup::<$name, $crate::seams::SimHsmWide<$ke>>::deserialize(bytes).map_err(op_err)?;
                         Ok(s.serialize().to_vec())
+                    }
+                    // KeGroup::random_sk on a tape derived from `bytes`: the documented way to make
+                    // the key for ServerSetup::new_with_key
+                    6 => {
+                        use opaque_ke::key_exchange::group::KeGroup;
+                        // the whole tape is a function of `bytes` (rejection sampling on P-521
+                        // reads far beyond any fixed prefix)
+                        let seed = bytes.iter().fold(0xcbf29ce484222325u64, |h, b| (h ^ *b as u64).wrapping_mul(0x100000001b3));
+                        let mut rng = SimRng::new(seed, "keyapi/random_sk");
+                        let sk = <$ke as KeGroup>::random_sk(&mut rng);
+                        let mut v = <$ke as KeGroup>::serialize_sk(sk).to_vec();
+                        v.extend_from_slice(&<$ke as KeGroup>::serialize_pk(<$ke as KeGroup>::public_key(sk)));
+                        Ok(v)
                     }
                     // bytes = raw scalar: build such a setup and return its stored form
                     _ => {
